@@ -93,10 +93,18 @@ var RangeBounds = map[string][]string{
 	"semver":     {"1.0.0", "1.2.3", "2.0.0", "0.2.3", "1.2.3-alpha.2", "1.10.0"},
 }
 
+// CaseBounds: one bound with upper-case letters per ecosystem that accepts letters (ranges that
+// case-fold their text, String() that loses the spelling).
+var CaseBounds = map[string]string{"alpm": "1.0RC1", "apache": "1.2.3-Beta2", "cargo": "1.2.3-RC.1", "composer": "1.2.3-RC1", "conan": "1.2.3-RC1", "debian": "1.0A", "gem": "1.2.3.RC1",
+	"github": "v1.2.3-RC.1", "golang": "v1.2.3-RC.1", "hex": "1.2.3-RC.1", "mattermost": "1.2.3-RC1", "maven": "1.2.3-Final", "npm": "1.2.3-RC.1", "nuget": "1.2.3-Beta", "pypi": "1.2.3RC1", "rpm": "1.0A", "semver": "1.2.3-RC.1"}
+
 // Ranges returns candidate range strings for an ecosystem (filtered by the real parser elsewhere).
 func Ranges(name string, level int) G {
 	syn := SyntaxTable[name]
 	b := Lit(RangeBounds[name]...)
+	if cb, ok := CaseBounds[name]; ok {
+		b = append(b, cb)
+	}
 	b2 := Lit(RangeBounds[name][:3]...)
 	ops := Lit(syn.Ops...)
 	var g G
